@@ -45,6 +45,7 @@ REGISTRY = {
 }
 
 WORKERS = 16
+LABEL_SAFETY = 0.5
 
 
 class HarnessError(Exception):
@@ -345,8 +346,10 @@ def cmd_check(pid: str, tier: str, seed: int, budget_override: int | None) -> in
     if not violations:
         for label, frac in getattr(mod, "MIN_LABELS", {}).get(pid, {}).items():
             got = stats.labels.get(label, 0) / max(1, stats.evaluations)
-            if got < frac:
-                low.append(f"{label}: {got:.3f} < {frac}")
+            # the declared fraction is the design target; the run is rejected as a broken generator
+            # (exit 2, never a violation) only below half of it, and only on full-size runs
+            if got < frac * LABEL_SAFETY and stats.evaluations >= 500:
+                low.append(f"{label}: {got:.3f} < {LABEL_SAFETY} * {frac}")
     write_evidence(pid, mod, tier, seed, stats, wall, len(violations), extra)
     if low:
         raise HarnessError("generator does not reach required classes: " + "; ".join(low))
